@@ -72,7 +72,8 @@ class JsonSerializer(BaseSerializer):
             Any: The serialized value. A dict, list, string, number, or boolean.
         """
         # This has something to do with BaseComponent from llama_index.core. Is it still needed?
-        if hasattr(value, "class_name"):
+        # looked up on the type: an Event answers hasattr() for its dynamic fields
+        if hasattr(type(value), "class_name"):
             retval = {
                 "__is_component": True,
                 "value": value.to_dict(),
